@@ -750,6 +750,7 @@ struct RenameV<'tcx> {
 struct NoiseV<'tcx> {
     tcx: TyCtxt<'tcx>,
     stmts: Vec<Span>,
+    ifs: Vec<(Span, Span, Span, Span)>,
 }
 impl<'tcx> rustc_hir::intravisit::Visitor<'tcx> for NoiseV<'tcx> {
     fn visit_block(&mut self, b: &'tcx rustc_hir::Block<'tcx>) {
@@ -767,6 +768,33 @@ impl<'tcx> rustc_hir::intravisit::Visitor<'tcx> for NoiseV<'tcx> {
             }
         }
         rustc_hir::intravisit::walk_block(self, b);
+    }
+    fn visit_expr(&mut self, e: &'tcx rustc_hir::Expr<'tcx>) {
+        // `if c { A } else { B }` with a plain boolean condition and two written-out blocks
+        if let rustc_hir::ExprKind::If(c, th, Some(el)) = e.kind {
+            let plain = !matches!(c.kind, rustc_hir::ExprKind::Let(..)) && !contains_let(c);
+            let both_blocks = matches!(th.kind, rustc_hir::ExprKind::Block(_, None)) && matches!(el.kind, rustc_hir::ExprKind::Block(_, None));
+            let sm = self.tcx.sess.source_map();
+            let brace = |sp: Span| matches!(sm.span_to_snippet(sp), Ok(s) if s.starts_with('{') && s.ends_with('}'));
+            if plain && both_blocks && !e.span.from_expansion() && !c.span.from_expansion() && !th.span.from_expansion() && !el.span.from_expansion()
+                && brace(th.span) && brace(el.span) && e.span.contains(c.span) && e.span.contains(th.span) && e.span.contains(el.span)
+            {
+                if let Ok(s) = sm.span_to_snippet(e.span) {
+                    if s.starts_with("if ") {
+                        self.ifs.push((e.span, c.span, th.span, el.span));
+                    }
+                }
+            }
+        }
+        rustc_hir::intravisit::walk_expr(self, e);
+    }
+}
+fn contains_let(e: &rustc_hir::Expr<'_>) -> bool {
+    match e.kind {
+        rustc_hir::ExprKind::Let(..) => true,
+        rustc_hir::ExprKind::Binary(_, a, b) => contains_let(a) || contains_let(b),
+        rustc_hir::ExprKind::DropTemps(x) => contains_let(x),
+        _ => false,
     }
 }
 struct Bind {
@@ -900,6 +928,7 @@ fn rename_facts(tcx: TyCtxt<'_>, out_dir: &str) {
     }
     // statement starts (for the "noise" mutator: a no-op call inserted in front of every statement)
     let mut stmts = Vec::new();
+    let mut ifs = Vec::new();
     for ldid in tcx.hir_body_owners() {
         if !matches!(tcx.def_kind(ldid.to_def_id()), DefKind::Fn | DefKind::AssocFn | DefKind::Closure) || tcx.def_span(ldid).from_expansion() {
             continue;
@@ -908,8 +937,31 @@ fn rename_facts(tcx: TyCtxt<'_>, out_dir: &str) {
             continue;
         }
         let body = tcx.hir_body_owned_by(ldid);
-        let mut nv = NoiseV { tcx, stmts: vec![] };
+        let mut nv = NoiseV { tcx, stmts: vec![], ifs: vec![] };
         rustc_hir::intravisit::Visitor::visit_expr(&mut nv, body.value);
+        for (e, c, th, el) in nv.ifs {
+            let off = |sp: Span| {
+                let lo = sm.lookup_byte_offset(sp.lo());
+                let hi = sm.lookup_byte_offset(sp.hi());
+                (lo.pos.0 as i128, hi.pos.0 as i128)
+            };
+            let lo = sm.lookup_byte_offset(e.lo());
+            if let rustc_span::FileName::Real(r) = &lo.sf.name {
+                if let Some(p) = r.local_path() {
+                    let (e0, e1) = off(e);
+                    let (c0, c1) = off(c);
+                    let (t0, t1) = off(th);
+                    let (l0, l1) = off(el);
+                    ifs.push(J::Obj(vec![
+                        ("file", s(p.to_string_lossy().to_string())),
+                        ("e", J::Arr(vec![J::Int(e0), J::Int(e1)])),
+                        ("c", J::Arr(vec![J::Int(c0), J::Int(c1)])),
+                        ("t", J::Arr(vec![J::Int(t0), J::Int(t1)])),
+                        ("l", J::Arr(vec![J::Int(l0), J::Int(l1)])),
+                    ]));
+                }
+            }
+        }
         for sp in nv.stmts {
             let lo = sm.lookup_byte_offset(sp.lo());
             if let rustc_span::FileName::Real(r) = &lo.sf.name {
@@ -919,7 +971,7 @@ fn rename_facts(tcx: TyCtxt<'_>, out_dir: &str) {
             }
         }
     }
-    let root = J::Obj(vec![("crate", s(krate.clone())), ("bindings", J::Arr(all)), ("stmts", J::Arr(stmts))]);
+    let root = J::Obj(vec![("crate", s(krate.clone())), ("bindings", J::Arr(all)), ("stmts", J::Arr(stmts)), ("ifs", J::Arr(ifs))]);
     let mut out = String::with_capacity(1 << 20);
     root.write(&mut out);
     let path = format!("{}/{}.rename.json", out_dir, krate);
